@@ -218,6 +218,7 @@ func (fv *FuncVerifier) step(st *State, b *ssa.BasicBlock, ins ssa.Instruction) 
 		val := st.get(x.Val)
 		p := fv.derefPlace(st, addr, x.Pos(), x.Addr)
 		val.Typ = p.Typ
+		fv.checkGuard(st, st.resolve(p), true, x.Pos())
 		st.store(p, val)
 	case *ssa.UnOp:
 		st.regs[x] = fv.unop(st, x)
@@ -529,7 +530,12 @@ func (fv *FuncVerifier) unop(st *State, x *ssa.UnOp) Value {
 		if _, isArr := p.Typ.Underlying().(*types.Array); isArr && p.Kind != PLocal {
 			panic(unsupported("load of whole array value"))
 		}
-		return st.load(p)
+		g := fv.checkGuard(st, st.resolve(p), false, x.Pos())
+		v := st.load(p)
+		if g != nil {
+			v.Guard = g
+		}
+		return v
 	case token.NOT:
 		v := st.get(x.X)
 		return Value{Typ: x.Type(), L: []Term{Not(v.L[0])}}
@@ -1081,9 +1087,18 @@ func (fv *FuncVerifier) lookup(st *State, x *ssa.Lookup) Value {
 		st.assume(And(Le(I(0), t), Le(t, I(255))))
 		return Value{Typ: x.Type(), L: []Term{t}}
 	}
-	// map lookup: opaque
+	// map lookup: opaque, except that a nil map has no entries
 	fv.guardAccess(st, x.X, false, x.Pos())
-	return st.freshValue("maplookup", x.Type())
+	res := st.freshValue("maplookup", x.Type())
+	st.assumeRefs(res)
+	if x.CommaOk && len(res.L) > 0 {
+		m := st.get(x.X)
+		okT := res.L[len(res.L)-1]
+		if okT.Sort == SBool {
+			st.assume(Implies(Eq(m.L[0], I(0)), Not(okT)))
+		}
+	}
+	return res
 }
 
 func (fv *FuncVerifier) mapUpdate(st *State, x *ssa.MapUpdate) {
